@@ -51,8 +51,17 @@ Definition uses_shortcut (p : path) : bool :=
     (AS, ingress interface, action code, argument); codes: 1 forward(egress), 2 deliver *)
 Definition tline := (N * N * N * N)%type.
 
+(** Addresses.  An ISD-AS (16 bit ISD, 48 bit AS number) names a concrete AS by EQUALITY and by
+    nothing else: the wildcard forms 0-<as>, <isd>-0 and 0-0 (used in lookups and filters) are
+    not the address of any AS, and neither is an equal AS number in another ISD.  "The packet is
+    for the local AS" therefore means [spec_local_dst local dst = true].  Literal. *)
+Definition ia_isd (x : N) : N := x / 281474976710656.
+Definition ia_asn (x : N) : N := x mod 281474976710656.
+Definition is_wildcard_ia (x : N) : bool := (ia_isd x =? 0) || (ia_asn x =? 0).
+Definition spec_local_dst (local dst : N) : bool := local =? dst.
+
 Definition o_deliver_only_at (dst : N) (tr : list tline) : bool :=
-  forallb (fun '(ia, _, c, _) => negb (c =? 2) || (ia =? dst)) tr.
+  forallb (fun '(ia, _, c, _) => negb (c =? 2) || spec_local_dst ia dst) tr.
 
 Definition o_bounded (hops ch : nat) (tr : list tline) : bool :=
   (length tr <=? Nat.max 1 (hops - ch))%nat.
